@@ -180,9 +180,36 @@ Fixpoint started_ids (xs : list sin) (os : list obs) : list N :=
   | _, _ => []
   end.
 
+(* A host that cannot observe is_done of a hosted command (Core): the done flag of every run is
+   replaced by "an outcome has been reported so far".  Accepted traces stay accepted (SpecProofs). *)
+Fixpoint weak1 (out : bool) (os : list obs) : list obs :=
+  match os with
+  | [] => []
+  | OPoll e v d :: os' => let out' := out || negb (is_nil v) in OPoll e v out' :: weak1 out' os'
+  | o :: os' => o :: weak1 out os'
+  end.
+Fixpoint weak (outs : list bool) (xs : list sin) (os : list obs) : list obs :=
+  match xs, os with
+  | SStart _ :: xs', o :: os' => o :: weak (outs ++ [false]) xs' os'
+  | SOn i _ :: xs', OPoll e v d :: os' =>
+      let out' := nth i outs false || negb (is_nil v) in
+      OPoll e v out' :: weak (upd_nth outs i out') xs' os'
+  | _ :: xs', o :: os' => o :: weak outs xs' os'
+  | _, _ => os
+  end.
+Definition undone (h : hist) : hist :=
+  mkHist (h_started h) (h_pend h) (h_fired h) (h_app h) (h_hdl h) (h_clr h) (h_ans h) (h_drop h) (h_out h) (h_out h) (h_bad h).
+
 (* verdict of one correspondence case (see CONTRIBUTING.md): 0 agree and C18_ok; 1 differ but
    C18_ok holds of the implementation's trace; 2 C18_ok fails on the implementation's trace *)
 Definition verdict (c0 : N) (xs : list sin) (impl : list obs) : N :=
   if C18_ok xs impl then (if trace_eqb (srun (sys0 c0) xs) impl then 0%N else 1%N) else 2%N.
 Definition verdicts (cs : list (N * list sin * list obs)) : list N :=
   map (fun c => match c with (c0, xs, impl) => verdict c0 xs impl end) cs.
+
+(* Core host: the harness regroups every core call into "the input, then a run of every timer" and
+   cannot observe done flags *)
+Definition verdict_core (c0 : N) (xs : list sin) (impl : list obs) : N :=
+  if C18_ok xs impl then (if trace_eqb (weak [] xs (srun (sys0 c0) xs)) impl then 0%N else 1%N) else 2%N.
+Definition verdicts_core (cs : list (N * list sin * list obs)) : list N :=
+  map (fun c => match c with (c0, xs, impl) => verdict_core c0 xs impl end) cs.
